@@ -96,22 +96,127 @@ func (s *session) quiescent(op string) {
 	}
 }
 
+// expectListed: C04's own statement tracked by the harness (independent of the model): paths that
+// were added successfully, name the same inode as then, were not removed, and were not touched by
+// any file-system step since — these must be in WatchList at every quiescent point.
+type expectation struct {
+	ino uint64
+}
+
+var expectListed map[string]expectation
+
+func inoOf(p string) (uint64, bool) {
+	var st unix.Stat_t
+	if unix.Stat(p, &st) != nil {
+		return 0, false
+	}
+	return st.Ino, true
+}
+
+func expectAfterAdd(s *session, arg, ret string) {
+	if ret != "nil" {
+		return
+	}
+	p := filepath.Clean(arg)
+	ino, ok := inoOf(p)
+	if !ok {
+		return
+	}
+	listed := false
+	for _, q := range s.w.WatchList() {
+		if q == p {
+			listed = true
+		}
+	}
+	if !listed {
+		return // an alias of something already listed under another name: the first spelling stays
+	}
+	expectListed[p] = expectation{ino: ino}
+}
+
+// invalidate every expectation a file-system step may have affected (conservative: by name)
+func expectAfterFS(desc string, touched map[uint64]bool) {
+	for p, e := range expectListed {
+		if touched[e.ino] {
+			delete(expectListed, p) // the step named this inode (possibly through another hard link)
+		}
+	}
+	for p := range expectListed {
+		abs := p
+		if !filepath.IsAbs(abs) {
+			cwd, _ := os.Getwd()
+			abs = filepath.Join(cwd, p)
+		}
+		real, err := filepath.EvalSymlinks(abs)
+		if err != nil {
+			delete(expectListed, p)
+			continue
+		}
+		for _, tok := range strings.Fields(desc)[1:] {
+			if tok == abs || tok == real || strings.HasPrefix(abs, tok+"/") || strings.HasPrefix(real, tok+"/") {
+				delete(expectListed, p)
+			}
+		}
+	}
+	// hard links / renames can also reach the inode under another name: drop expectations whose inode changed
+	for p, e := range expectListed {
+		if ino, ok := inoOf(p); !ok || ino != e.ino {
+			delete(expectListed, p)
+		}
+	}
+}
+
+func (s *session) checkExpectations(op string) {
+	wl := map[string]bool{}
+	for _, p := range s.w.WatchList() {
+		wl[p] = true
+	}
+	for p, e := range expectListed {
+		if ino, ok := inoOf(p); ok && ino == e.ino && !wl[p] {
+			s.report("C04", "C04:watched-path-not-listed", fmt.Sprintf("path %q was added, still names the same file, was not removed, renamed or deleted — but WatchList does not show it", p),
+				map[string]interface{}{"op": op})
+		}
+	}
+}
+
 type liveFS struct {
-	u    *universe
-	open map[string]*os.File // descriptors held open (unlink-while-open)
-	n    int
+	u       *universe
+	open    map[string]*os.File // descriptors held open (unlink-while-open)
+	n       int
+	touched map[uint64]bool // inodes named (before the step) by any argument of the steps so far
+}
+
+func (f *liveFS) touch(paths ...string) {
+	for _, p := range paths {
+		var st unix.Stat_t
+		if unix.Lstat(p, &st) == nil {
+			f.touched[st.Ino] = true
+		}
+		if unix.Stat(p, &st) == nil {
+			f.touched[st.Ino] = true
+		}
+	}
 }
 
 // fsStep performs one random file-system operation inside the universe; returns a description.
 func (f *liveFS) fsStep(g *rng) string {
+	f.touched = map[uint64]bool{}
 	root := f.u.root
 	dirs := []string{"d0", "d1", "d0/sub", "dir1", "dir10", "."}
 	names := []string{"x", "y", "z", "new", "n15-----------x", "n16------------x", "with space", "ünï", ".dot"}
-	pick := func() string { return filepath.Join(root, dirs[g.intn(len(dirs))], names[g.intn(len(names))]) }
+	pick := func() string {
+		p := filepath.Join(root, dirs[g.intn(len(dirs))], names[g.intn(len(names))])
+		f.touch(p)
+		return p
+	}
 	top := []string{"f0", "f1", "h0", "d0", "d1", "dir1", "dir10", "d0/sub", "d0/x", "d0/y", "d1/z"}
-	pickTop := func() string { return filepath.Join(root, top[g.intn(len(top))]) }
+	pickTop := func() string {
+		p := filepath.Join(root, top[g.intn(len(top))])
+		f.touch(p)
+		return p
+	}
 	f.n++
-	switch g.intn(16) {
+	switch g.intn(18) {
 	case 0:
 		p := pick()
 		os.WriteFile(p, []byte("data"), 0o644)
@@ -189,10 +294,24 @@ func (f *liveFS) fsStep(g *rng) string {
 			os.WriteFile(p, []byte("again"), 0o644)
 		}
 		return "recreate " + p
-	default:
+	case 15:
 		p := filepath.Join(root, []string{"d0", "d1", "dir1", "d0/sub"}[g.intn(4)])
+		filepath.Walk(p, func(q string, _ os.FileInfo, _ error) error { f.touch(q); return nil })
 		os.RemoveAll(p)
 		return "rm-r " + p
+	default: // retarget a symlink
+		if g.chance(50) {
+			l := filepath.Join(root, "l0")
+			f.touch(l)
+			os.Remove(l)
+			os.Symlink([]string{"d0", "d1", "dir1"}[g.intn(3)], l)
+			return "retarget " + l
+		}
+		l := filepath.Join(root, "lf")
+		f.touch(l)
+		os.Remove(l)
+		os.Symlink(filepath.Join(root, []string{"f0", "f1", "d1/z"}[g.intn(3)]), l)
+		return "retarget " + l
 	}
 }
 
@@ -250,6 +369,7 @@ func runLive(r *rec, g *rng, tier, what, replay, out string, extra map[string]in
 			b, _ := json.Marshal(map[string]interface{}{"property": prop, "signature": sig, "what": what, "detail": detail})
 			mon.Write(append(b, '\n'))
 		}
+		expectListed = map[string]expectation{}
 		r.emit("reset", fmt.Sprintf("reset session=%d live", si), "ok")
 		s.opAdd(r, s.sentinel, 0x1f, false)
 		if wd, ok := s.wdOf(s.sentinel, false); ok {
@@ -264,6 +384,20 @@ func runLive(r *rec, g *rng, tier, what, replay, out string, extra map[string]in
 			os.RemoveAll(root)
 			continue
 		}
+		if si == 1 && only <= 1 { // corpus: a listed symlink re-pointed and re-added keeps being watched
+			liveScriptRepoint(r, s, u)
+			s.close()
+			os.Chdir(cwd)
+			os.RemoveAll(root)
+			continue
+		}
+		if si == 2 && only <= 2 { // corpus: finding F9 (another hard link of a watched file is renamed)
+			liveScriptHardlinkRename(r, s, u)
+			s.close()
+			os.Chdir(cwd)
+			os.RemoveAll(root)
+			continue
+		}
 		fs := &liveFS{u: u, open: map[string]*os.File{}}
 		lag := 1 + sg.intn(4) // how many steps may pass before the reader sees the stream
 		alive := true
@@ -271,7 +405,9 @@ func runLive(r *rec, g *rng, tier, what, replay, out string, extra map[string]in
 			switch c := sg.intn(100); {
 			case c < 20:
 				rel := u.paths[sg.intn(len(u.paths))]
-				s.opAdd(r, u.spell(sg, rel), 0x1f, false)
+				arg := u.spell(sg, rel)
+				s.opAdd(r, arg, 0x1f, false)
+				expectAfterAdd(s, arg, s.lastRet)
 			case c < 24:
 				s.opAdd(r, u.badPath(sg), 0x1f, false)
 			case c < 32:
@@ -280,21 +416,26 @@ func runLive(r *rec, g *rng, tier, what, replay, out string, extra map[string]in
 				if len(l) > 1 && sg.chance(70) {
 					if p := l[sg.intn(len(l))]; p != s.sentinel {
 						s.opRemove(r, p)
+						delete(expectListed, filepath.Clean(p))
 						break
 					}
 				}
-				s.opRemove(r, u.spell(sg, u.paths[sg.intn(len(u.paths))]))
+				arg := u.spell(sg, u.paths[sg.intn(len(u.paths))])
+				s.opRemove(r, arg)
+				delete(expectListed, filepath.Clean(arg))
 			case c < 36:
 				s.opWatchList(r)
 			default:
 				d := fs.fsStep(sg)
 				fslog = append(fslog, d)
+				expectAfterFS(d, fs.touched)
 				r.notes["fs:"+strings.SplitN(d, " ", 2)[0]]++
 			}
 			if i%lag == 0 {
 				alive = s.pump(r)
 				if alive {
 					s.quiescent(fmt.Sprintf("step %d", i))
+					s.checkExpectations(fmt.Sprintf("step %d", i))
 				}
 			}
 		}
@@ -342,4 +483,75 @@ func liveScriptF5(r *rec, s *session, u *universe) {
 			map[string]interface{}{"history": []string{"Add(d0/x)", "open d0/x", "unlink d0/x", "Add(d0)", "close fd"}})
 	}
 	s.quiescent("F5 script")
+}
+
+// liveScriptRepoint: Add(lf -> f0); retarget lf -> f1; Add(lf); drain. lf must stay listed and a
+// write to f1 must be reported under the name lf.
+func liveScriptRepoint(r *rec, s *session, u *universe) {
+	lf := filepath.Join(u.root, "lf")
+	s.opAdd(r, lf, 0x1f, false)
+	os.Remove(lf)
+	os.Symlink(filepath.Join(u.root, "f1"), lf)
+	s.opAdd(r, lf, 0x1f, false)
+	s.pump(r)
+	s.quiescent("repoint")
+	listed := false
+	for _, p := range s.w.WatchList() {
+		if p == lf {
+			listed = true
+		}
+	}
+	if !listed {
+		s.report("C04", "C04:watched-path-not-listed", "listed symlink re-pointed to another file and re-added: the path vanished from WatchList",
+			map[string]interface{}{"history": []string{"Add(lf->f0)", "retarget lf->f1", "Add(lf)", "drain"}})
+	}
+	before := s.evSeen
+	os.WriteFile(filepath.Join(u.root, "f1"), []byte("changed"), 0o644)
+	s.pump(r)
+	s.obs.mu.Lock()
+	got := false
+	for _, e := range s.obs.events[before:] {
+		if e.Name == lf && e.Has(fsnotify.Write) {
+			got = true
+		}
+	}
+	s.obs.mu.Unlock()
+	if !got {
+		s.report("C01", "C01:write-to-repointed-file-lost", "write to the file a re-pointed, re-added symlink names was not reported",
+			map[string]interface{}{"history": []string{"Add(lf->f0)", "retarget lf->f1", "Add(lf)", "write f1"}})
+	}
+	s.opWatchList(r)
+}
+
+// liveScriptHardlinkRename: f0 and h0 are two names of one inode; f0 is watched; h0 is renamed.
+// Nothing happened to f0: no event may be reported for it and it must stay listed.
+func liveScriptHardlinkRename(r *rec, s *session, u *universe) {
+	f0, h0 := filepath.Join(u.root, "f0"), filepath.Join(u.root, "h0")
+	s.opAdd(r, f0, 0x1f, false)
+	before := s.evSeen
+	os.Rename(h0, h0+".renamed")
+	s.pump(r)
+	s.obs.mu.Lock()
+	var phantom []string
+	for _, e := range s.obs.events[before:] {
+		if e.Name == f0 {
+			phantom = append(phantom, e.String())
+		}
+	}
+	s.obs.mu.Unlock()
+	if len(phantom) > 0 {
+		s.report("C02", "C02:hardlink-rename-reported-for-watched-path", "another hard link of the watched file was renamed; the untouched watched path got: "+strings.Join(phantom, "; "),
+			map[string]interface{}{"history": []string{"f0, h0: two links of one inode", "Add(f0)", "rename h0 h0.renamed"}})
+	}
+	listed := false
+	for _, p := range s.w.WatchList() {
+		if p == f0 {
+			listed = true
+		}
+	}
+	if !listed {
+		s.report("C04", "C04:hardlink-rename-ends-watch", "another hard link of the watched file was renamed; the watch on the untouched path f0 ended (WatchList no longer shows it)",
+			map[string]interface{}{"history": []string{"f0, h0: two links of one inode", "Add(f0)", "rename h0 h0.renamed"}})
+	}
+	s.quiescent("F9 script")
 }
